@@ -89,6 +89,10 @@ fn words(xs: &Xstate) -> Vec<String> {
 }
 
 pub fn case(ch: &mut Choices, ctx: &CaseCtx) -> CaseOut {
+    // 1 case in 25: lines typed into the real REPL binary (rejected and failing lines among them)
+    if ch.chance(1, 25) && crate::props::replbin::bin_path().is_some() {
+        return crate::props::replbin::repl_case(ch, ctx, 1, "repl");
+    }
     let mut out = CaseOut::default();
     let compile_style = ch.bool();
     let family2 = ch.chance(1, 4);
